@@ -177,6 +177,12 @@ class PVLDecoder(object):
         try:
             return int(value, base=10)
         except ValueError:
+            # Whether the text is a real number is decided by the syntax
+            # float() accepts, not by what the substitute class would take
+            # (Decimal also takes "NaN123" or "sNaN"): otherwise the same
+            # word is a parameter name with one real_cls and a number with
+            # another.
+            float(value)
             try:
                 return self.real_cls(str(value))
             except InvalidOperation as err:
